@@ -2,7 +2,7 @@
 from .. import w_sched
 
 LEVEL = 'exploration'
-SHARDS = {'quick': 4, 'thorough': 16}
+SHARDS = {'quick': 8, 'thorough': 16}
 BUDGET = {'quick': 80, 'thorough': 900}
 TECHNIQUE = 'runtime monitoring with a deterministic scheduler: client threads are serialised on sys.monitoring LINE events of sigtools code and preempted at chosen statement boundaries (replayable schedules); boundary monitor compares each result with the sequential answer and the shared objects at quiescence; plus free-running stress with a 1 microsecond switch interval'
 RULE = ('10 shared-object scenarios (two sigtools retrievals of one functools.wraps wrapper; sigtools vs inspect; two inspect retrievals '
